@@ -239,6 +239,39 @@ def _leftover(out_path, kind):
     LEFTOVERS["fired"]["leftover." + mode] = LEFTOVERS["fired"].get("leftover." + mode, 0) + 1
 
 
+def torn_roundtrip(save, load, same, path_count, path_torn, u):
+    """fault store.torn-save for any archive: `save(path)` is killed before its k-th dataset (k from u); the file is closed
+    by unwinding.  Returns None if nothing was torn, else 'refused' / 'equal' / 'different' for what `load(path)` made of
+    the remains (`same(obj)` compares with what was being saved)."""
+    counter = launch.FaultPoints(everywhere=True)
+    try:
+        with counter:
+            save(path_count)
+    except Exception:
+        return None
+    n = counter.seen.get("h5.write", 0)
+    if not n:
+        return None
+    fp = launch.FaultPoints({"h5.write": 1 + int(u * n) % n}, everywhere=True)
+    try:
+        with fp:
+            save(path_torn)
+    except launch.SimKilled:
+        pass
+    except Exception:
+        return None
+    if not fp.fired or not os.path.exists(path_torn):
+        return None
+    try:
+        got = load(path_torn)
+    except Exception:
+        return "refused"
+    try:
+        return "equal" if same(got) else "different"
+    except Exception:
+        return "different"
+
+
 def _produced(out_path, kind):
     LEFTOVERS["seen"].setdefault(kind, []).append(out_path)
 
